@@ -11,6 +11,7 @@ mod rng;
 mod s2m_suite;
 mod srv;
 mod srv_suite;
+mod timers_suite;
 mod translate;
 mod writer_suite;
 
@@ -214,6 +215,31 @@ fn main() {
         js_map(&out.stats),
         out.failures.len()
       ));
+      std::fs::write(&a.out, t).expect("write transcript");
+    },
+    "timers" => {
+      let (rt, local) = local_rt();
+      let (seed, cases) = (a.seed, a.cases);
+      let mode = a.extra.get("mode").cloned().unwrap_or_else(|| "random".into());
+      let t = if let Some(script) = a.extra.get("script").cloned() {
+        let g = |k: &str, d: u64| a.extra.get(k).and_then(|v| v.parse().ok()).unwrap_or(d);
+        let cfg = timers_suite::TCfg {
+          link: match a.extra.get("link").map(|s| s.as_str()) {
+            Some("s2m") => timers_suite::Link::S2m,
+            Some("m2s") => timers_suite::Link::M2s,
+            _ => timers_suite::Link::C2s,
+          },
+          auth: g("auth", 0) == 1,
+          ct: g("ct", 100),
+          at: g("at", 100),
+          ka: g("ka", 50),
+          minka: g("minka", 5),
+          pipe: g("pipe", 1 << 20) as usize,
+        };
+        local.block_on(&rt, async move { timers_suite::run_script(cfg, &script).await })
+      } else {
+        local.block_on(&rt, async move { timers_suite::run_suite(seed, cases, &mode).await })
+      };
       std::fs::write(&a.out, t).expect("write transcript");
     },
     "translate" => {
